@@ -101,7 +101,8 @@ Inductive phase :=
 | PHold                                 (* RoundTrip returned; body in memory behind bodyStream; release deferred to the close callback *)
 | PStreamLen (left : nat) (eof : bool)  (* requestStream with Content-Length; eof = eofReader.eof *)
 | PStreamChunked (left : nat) (eof : bool)   (* requestStream, chunked: left = chunkLeft *)
-| PStreamIdent (eof : bool).            (* requestStream, until close *)
+| PStreamIdent (eof : bool)             (* requestStream, until close *)
+| PStreamBroken.                        (* requestStream, chunked, rs.err set: every further Read returns the framing error *)
 
 Inductive rd_res :=
 | RMore (p : phase)
@@ -190,10 +191,11 @@ Definition stream_eof (p : phase) : option phase :=
 Definition stream_unread (p : phase) : bool :=
   match p with
   | PStreamLen _ e | PStreamChunked _ e | PStreamIdent e => negb e
+  | PStreamBroken => true
   | _ => false
   end.
 Definition is_stream_phase (p : phase) : bool :=
-  match p with PHold | PStreamLen _ _ | PStreamChunked _ _ | PStreamIdent _ => true | _ => false end.
+  match p with PHold | PStreamLen _ _ | PStreamChunked _ _ | PStreamIdent _ | PStreamBroken => true | _ => false end.
 
 (* ---- Part 3: HostClient ------------------------------------------------------------------------------------------------- *)
 Record opts := mkOpts {
@@ -227,6 +229,7 @@ Inductive label :=
 | LReadEof (t : nat)                                  (* readBodyIdentity sees EOF *)
 | LStreamRead (t : nat)                               (* caller reads one unit from BodyStream() *)
 | LStreamEof (t : nat)                                (* caller's Read on the stream sees the peer's EOF between two units *)
+| LStreamErr (t : nat)                                (* caller's Read fails at a chunk-size line (deadline, bad line): the error sticks *)
 | LCloseStream (t : nat) (werr : bool)                (* CloseBodyStream / closeBodyStream(wErr) *)
 | LSrvRead (l : loc) (r : resp)
 | LSrvSend (l : loc)
@@ -370,6 +373,11 @@ Definition step (s : st) (l : label) : option st :=
           | [], Some p1 => if c_srvclosed k then Some (set_thr s t (TRun x p1 k)) else None
           | _, _ => None
           end
+      | _ => None
+      end
+  | LStreamErr t =>
+      match s_thr s t with
+      | TRun x (PStreamChunked 0 false) k => Some (set_thr s t (TRun x PStreamBroken k))    (* rs.err = err *)
       | _ => None
       end
   | LCloseStream t werr =>
